@@ -35,6 +35,27 @@ def base_cfg(npts, iota=0.0, R0=2.0, eps=1e-2, m=2, n=1, dt=2, degrees=(3, 3, 3,
 
 
 @st.composite
+def phys(draw):
+    """Physical constants away from their defaults (possibly {}): a dict merged into the set-up keywords / the constants
+    file of a configuration."""
+    out = {}
+    if draw(st.booleans()):
+        # profile constants away from their defaults and from each other (the shipped files set kTe = kTi,
+        # deltaRTe = deltaRTi, CTe = CTi, which would hide a mix-up between ion and electron profiles)
+        out.update({"kTi": draw(st.sampled_from([0.27586, 0.2, 0.35])), "kTe": draw(st.sampled_from([0.27586, 0.15, 0.4])),
+                    "deltaRTi": draw(st.sampled_from([1.45, 1.0, 2.0])), "deltaRTe": draw(st.sampled_from([1.45, 0.9, 2.3])),
+                    "CTi": draw(st.sampled_from([1.0, 0.8])), "CTe": draw(st.sampled_from([1.0, 1.3])),
+                    "kN0": draw(st.sampled_from([0.055, 0.08])), "deltaRN0": draw(st.sampled_from([2.9, 2.0]))})
+    if draw(st.integers(0, 2)) == 0:
+        # the domain and the field strength away from the defaults as well (vMin is not always -vMax)
+        vmax = draw(st.sampled_from([7.32, 6.5]))
+        out.update({"B0": draw(st.sampled_from([1.0, 1.7])), "rMin": draw(st.sampled_from([0.1, 0.5])),
+                    "rMax": draw(st.sampled_from([14.5, 10.0])), "vMax": vmax, "vMin": draw(st.sampled_from([-vmax, -6.0])),
+                    "rp": draw(st.sampled_from([7.3, 6.0])), "deltaR": draw(st.sampled_from([8.0, 5.0]))})
+    return out
+
+
+@st.composite
 def sim_config(draw, tier, small=True):
     nr = draw(st.integers(5, 7))
     # theta may have fewer points than there are processes along r: the driver's mode_solve layout distributes the
@@ -46,20 +67,9 @@ def sim_config(draw, tier, small=True):
     R0 = draw(st.sampled_from([2.0, 5.0, 239.8081535]))
     cfg = base_cfg([nr, nq, nz, nv], iota, R0, eps=draw(st.sampled_from([1e-2, 0.05])),
                    m=draw(st.integers(0, 3)), n=draw(st.integers(-2, 2)), dt=draw(st.sampled_from([1, 2, 3])))
-    if draw(st.booleans()):
-        # profile constants away from their defaults and from each other (the shipped files set kTe = kTi,
-        # deltaRTe = deltaRTi, CTe = CTi, which would hide a mix-up between ion and electron profiles)
-        cfg["phys"] = {"kTi": draw(st.sampled_from([0.27586, 0.2, 0.35])), "kTe": draw(st.sampled_from([0.27586, 0.15, 0.4])),
-                       "deltaRTi": draw(st.sampled_from([1.45, 1.0, 2.0])), "deltaRTe": draw(st.sampled_from([1.45, 0.9, 2.3])),
-                       "CTi": draw(st.sampled_from([1.0, 0.8])), "CTe": draw(st.sampled_from([1.0, 1.3])),
-                       "kN0": draw(st.sampled_from([0.055, 0.08])), "deltaRN0": draw(st.sampled_from([2.9, 2.0]))}
-    if draw(st.integers(0, 2)) == 0:
-        # the domain and the field strength away from the defaults as well
-        vmax = draw(st.sampled_from([7.32, 6.5]))
-        cfg.setdefault("phys", {}).update({
-            "B0": draw(st.sampled_from([1.0, 1.7])), "rMin": draw(st.sampled_from([0.1, 0.5])),
-            "rMax": draw(st.sampled_from([14.5, 10.0])), "vMax": vmax, "vMin": draw(st.sampled_from([-vmax, -6.0])),
-            "rp": draw(st.sampled_from([7.3, 6.0])), "deltaR": draw(st.sampled_from([8.0, 5.0]))})
+    ph = draw(phys())
+    if ph:
+        cfg["phys"] = ph
     if draw(st.integers(0, 3)) == 0:
         # spline degrees other than the cubic default (general, non-uniform-cubic code path of every operator)
         # (Spline2D asserts that its two directions are both uniform-cubic or both general: r and theta go together)
